@@ -70,7 +70,7 @@ def reprRound (B : Nat) (m : Mode) (c : Coarse) (p : Nat) (r : FRepr) : Rounded 
       let shift := d - p
       let hl := splitDigits B r.signif shift
       let adj := roundFract B m c hl.1 hl.2 shift
-      (FRepr.new B (hl.1 + adj.toInt) (r.exp + shift), some adj)
+      (FRepr.new B (hl.1 + rInt adj) (r.exp + shift), some adj)
     else (r, none)
 
 /-! ### mul / sqr / cubic (`mul.rs`) -/
@@ -79,20 +79,21 @@ def reprRound (B : Nat) (m : Mode) (c : Coarse) (p : Nat) (r : FRepr) : Rounded 
 def preShrink (B : Nat) (m : Mode) (c : Coarse) (p k : Nat) (f : FRepr) : FRepr :=
   if p ≠ 0 ∧ f.digits B > k * p then (reprRound B m c (k * p) f).1 else f
 
-/-- `Context::mul` -/
-def ctxMul (B : Nat) (m : Mode) (c : Coarse) (p : Nat) (lhs rhs : FRepr) : Rounded FRepr :=
-  let l := preShrink B m c p 2 lhs
-  let r := preShrink B m c p 2 rhs
+/-- `Context::mul`.  `fixed = true`: without the pre-shrink (a double rounding, see
+    `Props/C03.lean` `mul_preshrink_counterexample`). -/
+def ctxMul (fixed : Bool) (B : Nat) (m : Mode) (c : Coarse) (p : Nat) (lhs rhs : FRepr) : Rounded FRepr :=
+  let l := if fixed then lhs else preShrink B m c p 2 lhs
+  let r := if fixed then rhs else preShrink B m c p 2 rhs
   reprRound B m c p (FRepr.new B (l.signif * r.signif) (l.exp + r.exp))
 
 /-- `Context::sqr` -/
-def ctxSqr (B : Nat) (m : Mode) (c : Coarse) (p : Nat) (f : FRepr) : Rounded FRepr :=
-  let l := preShrink B m c p 2 f
+def ctxSqr (fixed : Bool) (B : Nat) (m : Mode) (c : Coarse) (p : Nat) (f : FRepr) : Rounded FRepr :=
+  let l := if fixed then f else preShrink B m c p 2 f
   reprRound B m c p (FRepr.new B (l.signif * l.signif) (2 * l.exp))
 
 /-- `Context::cubic` -/
-def ctxCubic (B : Nat) (m : Mode) (c : Coarse) (p : Nat) (f : FRepr) : Rounded FRepr :=
-  let l := preShrink B m c p 3 f
+def ctxCubic (fixed : Bool) (B : Nat) (m : Mode) (c : Coarse) (p : Nat) (f : FRepr) : Rounded FRepr :=
+  let l := if fixed then f else preShrink B m c p 3 f
   reprRound B m c p (FRepr.new B (l.signif * l.signif * l.signif) (3 * l.exp))
 
 /-- the operator form `&a * &b`: exact product, then `repr_round` at `Context::max` (no pre-shrink) -/
@@ -129,7 +130,7 @@ def reprDiv (B : Nat) (m : Mode) (p : Nat) (lhs rhs : FRepr) : Except FPanic (Ro
       if r = 0 then .ok (FRepr.new B q e, none)
       else
         let adj := roundRatio m q r rhs.signif
-        .ok (FRepr.new B (q + adj.toInt) e, some adj)
+        .ok (FRepr.new B (q + rInt adj) e, some adj)
 
 /-- `Context::div`: shrink an over-long dividend to `rhs.digits() + p` digits, then `repr_div` -/
 def ctxDiv (B : Nat) (m : Mode) (c : Coarse) (dub dlb : Int → Nat) (p : Nat) (lhs rhs : FRepr) :
@@ -177,8 +178,8 @@ def ctxSqrt (fixed : Bool) (B : Nat) (m : Mode) (c : Coarse) (p : Nat) (x : FRep
       if rem = 0 ∧ (¬ fixed ∨ low = 0) then (root, none)
       else
         let test := (compare rem root).then (compare (low * 4) ((B ^ lowDigits : Nat) : Int))
-        let adj := roundLowPart m root true test
-        (root + adj.toInt, some adj)
+        let adj := roundLowPart m root .Positive test
+        (root + rInt adj, some adj)
     let v := FRepr.new B res.1 exp
     let rr := reprRound B m c p v
     .ok (rr.1, andThenFlag res.2 rr.2)
@@ -209,7 +210,7 @@ def reprRoundSum (B : Nat) (m : Mode) (c : Coarse) (p : Nat)
     if low.1 = 0 then (FRepr.new B signif exp, none)
     else
       let adj := roundFract B m c signif low.1 low.2
-      (FRepr.new B (signif + adj.toInt) exp, some adj)
+      (FRepr.new B (signif + rInt adj) exp, some adj)
 
 /-- `Context::repr_add_large_small(lhs, rhs, rhs_sign)` (`lhs.exp ≥ rhs.exp`, both non-zero);
     `rs = ±1` is `rhs_sign`.  `repr_add_small_large` is the same text with the operands swapped (the
